@@ -3,6 +3,8 @@ import LoguruModel.Exc.FramesLemmas
 import LoguruModel.Exc.Closing
 import LoguruModel.Exc.SeenLemmas
 import LoguruModel.Exc.GroupLemmas
+import LoguruModel.Exc.FormatList
+import LoguruModel.Exc.Copy
 /-
 C13 – property theorems (DESIGN §4 C13).  Statements are about `Exc.fmt`/`Exc.formatException`
 defined over the constants REGENERATED from `/repo/loguru/_better_exceptions.py` (`Exc.Gen`).
@@ -520,6 +522,25 @@ theorem report_frames_are_the_property_frames (o : Opts) (d : Nat) (isFirst from
   rw [folding_loses_no_frame, ← loop_frames_are_traceback_frames_in_order]
   simp [List.map_map, Function.comp_def, Shown.key]
 
+/-- **format_list_loop_refines**: the statement-level transcription of `_format_list` (`Exc.formatListLoop`: the
+`count` / `last_source` loop with its `continue`, every test and counter update regenerated from the source as
+`Gen.flInit`, `flFlushTest`, `flFlushArg`, `flSameTest`, `flStep`, `flContinueTest`, `flRestart`, `flFinalTest`, `flFinalArg`)
+is the folding model `foldFrames` – so an edited threshold, comparison or counter update in the source breaks this proof -/
+theorem format_list_loop_refines (o : Opts) (d : Nat) (fs : List Shown) :
+    formatListLoop o d none Gen.flInit fs = foldFrames o d none 0 fs := by
+  have := formatListLoop_eq o d fs none 0
+  simpa [Gen.flInit] using this
+
+/-- the two code-level loops composed: what `_format_list(_extract_frames(…))` shows, repeats expanded, is the
+property's frame list – callers as the mode asks, then the traceback's own frames, last `tracebacklimit` of them -/
+theorem code_loops_show_the_property_frames (o : Opts) (d : Nat) (isFirst fromDec : Bool) (tb parents : List Frame) :
+    (expandFolded none (formatListLoop o d none Gen.flInit (extractLoop o isFirst fromDec tb parents))).map
+        (fun k => (k.1, k.2.1, k.2.2.1)) =
+      (if tb.isEmpty || limitBlocks o.limit then []
+       else applyLimit o.limit (callerFrames o isFirst fromDec parents ++ visible tb)).map
+        (fun f => (f.info.file, f.info.line, f.info.func)) := by
+  rw [format_list_loop_refines, report_frames_are_the_property_frames]
+
 /-- non-vacuity: six identical frames are shown as three + "repeated 3 more times", and read back as six -/
 example :
     let f : Shown := ⟨{ info := ⟨"f.py".toList, 7, "rec".toList, []⟩, hidden := false, vals := [] }, false⟩
@@ -573,5 +594,36 @@ theorem user_calls_guarded : Gen.userCallsGuarded = true ∧ Gen.strGuarded = tr
 /-- non-vacuity: a bare `assert x` under diagnose gets its source appended, `assert x, "msg"` does not -/
 example : assertSuffix true true true ⟨true, .ok []⟩ = .ok true ∧
     assertSuffix true true true ⟨true, .ok "msg".toList⟩ = .ok false := by constructor <;> rfl
+
+/-! ### copied handlers keep their options -/
+
+/-- **copied_formatter_keeps_options**: the formatter of a handler re-created by `copy.deepcopy(logger)`, a pickle
+round trip or a spawned child has the options the handler was added with (regenerated `Gen.rebuild`) -/
+theorem copied_formatter_keeps_options (o : Opts) : rebuildOpts o = o := by
+  cases o; rfl
+
+/-- hence a copied handler produces exactly the report of the original – every heap, entry point and budget – and in
+particular never prints a value when it was added with `diagnose = false` -/
+theorem copied_handler_reports_the_same (h : Heap) (o : Opts) (budget : Nat) (root : ExcId) (fromDec : Bool) :
+    formatException h (rebuildOpts o) budget root fromDec = formatException h o budget root fromDec := by
+  rw [copied_formatter_keeps_options]
+
+theorem copied_handler_hides_values (h h' : Heap) (o : Opts) (budget : Nat) (root : ExcId) (fromDec : Bool)
+    (hd : o.diagnose = false) (hsame : eraseVals h = eraseVals h') :
+    formatException h (rebuildOpts o) budget root fromDec = formatException h' (rebuildOpts o) budget root fromDec := by
+  rw [copied_formatter_keeps_options]
+  exact diagnose_false_noninterference h h' o budget root fromDec hd hsame
+
+/-- the refuted shape (seeded change C13-o: two constructor arguments exchanged on re-creation): a handler added with
+`backtrace = true, diagnose = false` prints a variable value after copying (and not before) -/
+theorem swapped_options_leak :
+    let fr : Frame := { info := ⟨"f.py".toList, 3, "g".toList, "g(x)".toList⟩, hidden := false,
+                        vals := [{ repr := .ok "'secret'".toList, typeName := "str".toList }] }
+    let hp : Heap := [{ truthy := true, cause := none, context := none, suppress := false, group := none,
+                        tb := [fr], parents := [] }]
+    let o : Opts := { backtrace := true, diagnose := false, colorize := false, limit := none, maxLen := 128 }
+    ((formatException hp o 2 0 false).toOption.map hasValue) = some false ∧
+    ((formatException hp (swappedOpts o) 2 0 false).toOption.map hasValue) = some true := by
+  constructor <;> rfl
 
 end C13
